@@ -14,6 +14,7 @@ import (
 	"runtime"
 	"sort"
 	"strings"
+	"sync"
 	"sync/atomic"
 	"testing"
 	"time"
@@ -56,9 +57,15 @@ type tap struct {
 	real *pushpull.DefaultPushTracker
 	out  chan pushpull.PendingPulls
 	regs int64
+	// before runs between the emission of a request (makeRequest) and the registration of the pull: the place where
+	// the answer to an earlier pull can arrive on another goroutine
+	before func(h common.Hash128)
 }
 
 func (w *tap) RegisterPull(h common.Hash128) {
+	if w.before != nil {
+		w.before(h)
+	}
 	w.real.RegisterPull(h)
 	atomic.AddInt64(&w.regs, 1)
 }
@@ -86,7 +93,41 @@ type hstate struct {
 	arrived   bool
 	arrivedAt time.Duration
 	heldAnns  int
+	// in-flight arrival: the item is stored after a request was emitted and before its pull is registered
+	armInflight bool
+	inflight    bool
+	grace       int // requests emitted before the in-flight arrival that the harness has not collected yet
 }
+
+// poolHolder stores items the way the transaction pool does as a holder: Add is ignored (items get known when the pool
+// accepts them) and the pull registry is never told about arrivals, so the tracker has to ask Has.
+type poolHolder struct {
+	mu  sync.Mutex
+	set map[common.Hash128]interface{}
+	tr  pushpull.PendingPushTracker
+}
+
+func (p *poolHolder) Add(hash common.Hash128, entry interface{}, shardId common.ShardId, highPriority bool) {}
+func (p *poolHolder) store(hash common.Hash128, entry interface{}) {
+	p.mu.Lock()
+	p.set[hash] = entry
+	p.mu.Unlock()
+}
+func (p *poolHolder) Has(hash common.Hash128) bool {
+	p.mu.Lock()
+	defer p.mu.Unlock()
+	_, ok := p.set[hash]
+	return ok
+}
+func (p *poolHolder) Get(hash common.Hash128) (interface{}, common.ShardId, bool, bool) {
+	p.mu.Lock()
+	defer p.mu.Unlock()
+	e, ok := p.set[hash]
+	return e, common.MultiShard, false, ok
+}
+func (p *poolHolder) MaxParallelPulls() uint32                  { return 1 }
+func (p *poolHolder) SupportPendingRequests() bool              { return true }
+func (p *poolHolder) PushTracker() pushpull.PendingPushTracker { return p.tr }
 
 type world struct {
 	t       tb
@@ -96,6 +137,7 @@ type world struct {
 	tracker *pushpull.DefaultPushTracker
 	tap     *tap
 	holder  pushpull.Holder
+	pool    *poolHolder // non-nil: the holder is pool-like
 	hashes  []common.Hash128
 	peers   []peer.ID
 	hashIdx map[common.Hash128]int
@@ -140,6 +182,10 @@ func waitParked(n int) {
 }
 
 func newWorld(t tb, delay time.Duration, nHashes, nPeers int) *world {
+	return newWorldWith(t, delay, nHashes, nPeers, false)
+}
+
+func newWorldWith(t tb, delay time.Duration, nHashes, nPeers int, poolLike bool) *world {
 	vclock.Reset()
 	vclock.DropWaiters() // goroutines of earlier cases stay blocked forever
 	vclock.Set(epoch)
@@ -159,7 +205,31 @@ func newWorld(t tb, delay time.Duration, nHashes, nPeers int) *world {
 	}
 	w.tracker = pushpull.NewDefaultPushTracker(delay)
 	w.tap = &tap{real: w.tracker, out: make(chan pushpull.PendingPulls, 8)}
-	w.holder = pushpull.NewDefaultHolder(1, w.tap) // starts loop and gc
+	if poolLike {
+		// as core/mempool.NewTxPool + Initialize do
+		w.pool = &poolHolder{set: map[common.Hash128]interface{}{}, tr: w.tap}
+		w.holder = w.pool
+		w.tap.SetHolder(w.pool)
+		w.tap.Run()
+	} else {
+		w.holder = pushpull.NewDefaultHolder(1, w.tap) // starts loop and gc
+	}
+	w.tap.before = func(h common.Hash128) {
+		hi, ok := w.hashIdx[h]
+		if !ok {
+			return
+		}
+		hs := w.hs[hi]
+		if !hs.armInflight || hs.arrived {
+			return
+		}
+		hs.armInflight = false
+		w.logf("    arrive(h%d) in flight: after the request was emitted, before its pull is registered", hi)
+		w.store(hi)
+		hs.arrived, hs.inflight, hs.arrivedAt = true, true, w.now()
+		hs.grace = 1
+		evid.Count("a.arrival.in-flight")
+	}
 	w.maxPar = int(w.holder.MaxParallelPulls())
 	w.mgr = protocol.NewPushPullManager()
 	w.mgr.AddEntryHolder(pushTyp, w.holder)
@@ -236,6 +306,12 @@ func (w *world) onRequest(id peer.ID, typ uint8, h common.Hash128, followup bool
 		return
 	}
 	// P4: nothing after the item was stored
+	if hs.arrived && hs.grace > 0 {
+		// emitted before the in-flight arrival, collected after it
+		hs.grace--
+		hs.reqs = append(hs.reqs, reqRec{peer: pi, hash: hi, at: now, followup: followup})
+		return
+	}
 	if hs.arrived {
 		w.fail("P4", "request to P%d for h%d at %v, but Add(h%d) returned at %v", pi, hi, now, hi, hs.arrivedAt)
 		return
@@ -299,6 +375,7 @@ func (w *world) announce(pi, hi int) {
 	w.logf("announce(P%d,h%d)%s", pi, hi, map[bool]string{true: " [item held]", false: ""}[hs.arrived])
 	p0, a0, m0 := w.sizes()
 	var rec *annRec
+	held := hs.arrived // an in-flight arrival may store the item inside the announcing call
 	if !hs.arrived {
 		for _, a := range hs.anns {
 			if a.peer == pi {
@@ -324,7 +401,7 @@ func (w *world) announce(pi, hi int) {
 		return
 	}
 	p1, a1, m1 := w.sizes()
-	if hs.arrived {
+	if held {
 		// P4: announcements of known items are ignored
 		if n != 0 || p1 != p0 || a1 != a0 || m1 != m0 {
 			w.fail("P4", "announce(P%d,h%d) of a held item: %d request(s), pending %d->%d, active %d->%d, manager counters %d->%d",
@@ -376,7 +453,7 @@ func (w *world) arrive(hi int) {
 	hs := w.hs[hi]
 	w.lastAction = w.now()
 	w.logf("arrive(h%d)", hi)
-	w.holder.Add(w.hashes[hi], hi, common.MultiShard, false)
+	w.store(hi)
 	if !hs.arrived {
 		hs.arrived = true
 		hs.arrivedAt = w.now()
@@ -392,9 +469,18 @@ func (w *world) arrive(hi int) {
 		w.fail("P4", "Has(h%d) is false right after Add", hi)
 		return
 	}
-	if _, ok := w.tracker.VerifC20ActivePulls()[w.hashes[hi]]; ok {
+	if _, ok := w.tracker.VerifC20ActivePulls()[w.hashes[hi]]; ok && w.pool == nil && !hs.inflight {
 		w.fail("P6", "active pull registry still holds h%d after Add(h%d) returned", hi, hi)
 	}
+}
+
+// store makes the item known to the holder.
+func (w *world) store(hi int) {
+	if w.pool != nil {
+		w.pool.store(w.hashes[hi], hi)
+		return
+	}
+	w.holder.Add(w.hashes[hi], hi, common.MultiShard, false)
 }
 
 // step releases the earliest parked goroutine at instant t, lets it run until it
@@ -503,6 +589,11 @@ func (w *world) finish() {
 	}
 	for h := range w.tracker.VerifC20ActivePulls() {
 		hi, ok := w.hashIdx[h]
+		if ok && (w.pool != nil || w.hs[hi].inflight) {
+			// registry entries of held items are only aged out (gc after 5 minutes) when the holder does not remove them
+			// (pool-like holder) or the pull was registered after the arrival (in-flight arrival): bounded, not a leak
+			continue
+		}
 		if !ok || w.hs[hi].arrived || len(w.hs[hi].anns) == 0 {
 			w.fail("P6", "active pull registry holds %x (h%d) which is held or was never pulled", h[:2], hi)
 			return
@@ -594,13 +685,17 @@ func capN(n, c int) string {
 }
 
 type action struct {
-	kind       int // 0 announce, 1 arrive, 2 advance
+	kind       int // 0 announce, 1 arrive, 2 advance, 3 arm an in-flight arrival
 	peer, hash int
 	dt         time.Duration
 }
 
 func runActions(t tb, delay time.Duration, nH, nP int, acts []action) *world {
-	w := newWorld(t, delay, nH, nP)
+	return runActionsWith(t, delay, nH, nP, acts, false)
+}
+
+func runActionsWith(t tb, delay time.Duration, nH, nP int, acts []action, poolLike bool) *world {
+	w := newWorldWith(t, delay, nH, nP, poolLike)
 	for _, a := range acts {
 		if w.excluded {
 			break
@@ -610,6 +705,11 @@ func runActions(t tb, delay time.Duration, nH, nP int, acts []action) *world {
 			w.announce(a.peer, a.hash)
 		case 1:
 			w.arrive(a.hash)
+		case 3:
+			if !w.hs[a.hash].arrived {
+				w.logf("arm in-flight arrival of h%d", a.hash)
+				w.hs[a.hash].armInflight = true
+			}
 		default:
 			if w.now()+a.dt < 58*time.Second {
 				w.advance(a.dt)
@@ -640,13 +740,21 @@ func TestSteppedSchedule(t *testing.T) {
 				acts = append(acts, action{kind: 0, peer: rapid.IntRange(0, nP-1).Draw(t, "peer"), hash: rapid.IntRange(0, nH-1).Draw(t, "hash")})
 			case k == 6:
 				if h := rapid.IntRange(0, nH-1).Draw(t, "hash"); !never[h] {
-					acts = append(acts, action{kind: 1, hash: h})
+					kind := 1
+					if rapid.IntRange(0, 2).Draw(t, "inFlight") == 0 {
+						kind = 3
+					}
+					acts = append(acts, action{kind: kind, hash: h})
 				}
 			default:
 				acts = append(acts, action{kind: 2, dt: rapid.SampledFrom(dts).Draw(t, "dt")})
 			}
 		}
-		w := runActions(t, delay, nH, nP, acts)
+		poolLike := rapid.IntRange(0, 2).Draw(t, "poolLikeHolder") == 0
+		w := runActionsWith(t, delay, nH, nP, acts, poolLike)
+		if poolLike {
+			evid.Count("a.case.pool-like-holder")
+		}
 		if w.excluded {
 			evid.Count("a.case.excluded-known-finding")
 			return
@@ -655,7 +763,7 @@ func TestSteppedSchedule(t *testing.T) {
 		evid.Count("a.case.completed")
 		// harness self-check: the schedule is a function of the draws only
 		if rapid.IntRange(0, 15).Draw(t, "replay") == 0 {
-			w2 := runActions(t, delay, nH, nP, acts)
+			w2 := runActionsWith(t, delay, nH, nP, acts, poolLike)
 			if a, b := strings.Join(w.trace, "\n"), strings.Join(w2.trace, "\n"); a != b {
 				t.Fatalf("harness: the same actions produced two different request logs:\n%s\n--- second run ---\n%s", a, b)
 			}
